@@ -38,6 +38,7 @@ func (C02) OnCall(e *sim.Env, c *sim.Call) {
 	pre := c.Pre.View
 	d := sub(post.Supply, pre.Supply)
 	e.Count("c02.transitions")
+	checkAwardQueue(e, c, "C02")
 	switch c.Kind {
 	case "begin":
 		awards := sumAwards(pre)
@@ -180,6 +181,9 @@ func (m *C10) OnCall(e *sim.Env, c *sim.Call) {
 		return
 	}
 	pre, post := c.Pre.View, c.Post.View
+	if c.Kind == "end" {
+		checkAwardQueue(e, c, "C10")
+	}
 	switch c.Kind {
 	case "deliver":
 		d := sub(post.Bal(FeeAddr), pre.Bal(FeeAddr))
@@ -272,6 +276,7 @@ func (m *C10) OnCall(e *sim.Env, c *sim.Call) {
 		for a := range awards {
 			check(a)
 		}
+		checkAwardQueue(e, c, "C10")
 		// the queue holds exactly what the ext module queued during this very call (it runs after pos)
 		wantQ := map[string]*big.Int{}
 		for _, x := range c.Entry.Ext {
